@@ -85,6 +85,30 @@ CLAIMED = {
                  "gate half of the iff, not the iff."),
         "note": "Trusted: clang 14 AST/CFG; _vis and CPPFile::_source are set correctly upstream of the gates.",
     },
+    "C16": {
+        "level": "other",
+        "design_ref": "DESIGN.md section 3, C16 (R16.1, R16.2)",
+        "technique": "CFG post-dominance / gated reachability on interrogate_module.cxx, call-graph closure to the lazy loader",
+        "text": ("Decides two necessary conditions of C16: (1) in interrogate_module's main the interrogate_error_flag() test is passed on every "
+                 "path from any call that can trigger a (lazy) database load to a possibly-zero exit, and its true edge unlinks the file "
+                 "that was opened and reaches only non-zero exits; (2) in write_python_table_native a library is appended only when its "
+                 "own remaining-dependency set is empty and it is not yet listed, dependencies are erased only for emitted libraries or "
+                 "on the reported-cycle branch, and all emission loops walk the same vector ascending.  Not decided: that the resulting "
+                 "order is topological for every graph and that cycle breaking terminates (run-time graphs)."),
+        "note": "Trusted: clang 14 AST/CFG, call graph of direct calls; loads happen only through check_latest (checked under C13).",
+    },
+    "C17": {
+        "level": "other",
+        "design_ref": "DESIGN.md section 3, C17 (R17.1, R17.2, R17.4; R17.3 = R04.4 under C04)",
+        "technique": "probe-sequence extraction from find_include's CFG vs reference sequence; option plumbing and canonicalisation-point rules",
+        "text": ("Decides the lookup-order and ownership clauses of C17 structurally: the successful returns of find_include are, in order, cwd "
+                 "(S_local), includer's directory (S_alternate), -S path for <> (S_system), -I/-S path ascending with the recorded kind, each "
+                 "later probe reached only after the earlier failed, no cwd/includer probe in angle mode; <> is angle mode iff !_noangles; a "
+                 "miss only warns; -I/-S append (never prepend) with one kind entry per directory; names are canonicalised before they key "
+                 "_parsed_files/_explicit_files and both sides of _explicit_files use the same normaliser; CPPFile orders on _filename only.  "
+                 "Not decided: idempotence/denotation-preservation of Filename::standardize/make_canonical (string algorithms)."),
+        "note": "Trusted: clang 14 AST/CFG; Filename::exists/resolve_filename/make_canonical; DSearchPath keeps insertion order.",
+    },
 }
 
 NOT_APPLICABLE = {
